@@ -58,6 +58,7 @@ size_t mpt_node_move(MPT_STRUCT(node) **from, MPT_STRUCT(node) *dst)
 					tmp = tmp->next;
 					++move;
 				}
+				src->children = 0;
 			}
 		}
 		src = src->next;
